@@ -280,6 +280,10 @@ def once(rc):
             if not (isinstance(e, ast.Tuple) and len(e.elts) == 2):
                 rc.fail(ve, n, "the remaining factors are collected in a set of bare factors: equal factors collapse", construct="final set of bare factors")
     rc.ob("no product over a set of factors in _variable_elimination")
+    from . import shared as _sh
+    _sh.value_keyed_factor_rule(rc, [(EI, "VariableElimination._get_working_factors"), (EI, "VariableElimination._variable_elimination"), (EI, "VariableElimination.query"),
+                                     (EI, "VariableElimination.induced_graph"), (EI, "BeliefPropagation._query"), (IB, "Inference._initialize_structures"),
+                                     (IB, "Inference._prune_bayesian_model")])
 
 
 @rule("C01.prune", "pruning and virtual evidence keep what the posterior depends on", floor=4)
